@@ -106,7 +106,7 @@ func zzConnType() phase.ConnectionType {
 func VerifHarness_HostStaysFirst() {
 	max := 4
 	if zz.Thorough() {
-		max = 6
+		max = 5
 	}
 	zz.MaxLen(max)
 	zz.Unwind(300)
